@@ -859,6 +859,9 @@ def run_filter_field_recorded(run, P, fname='handle_response'):
     dom = dominators(f)
     B = f['B']
     n = 0
+    types_seen = {}
+    from core.prog import preds_map
+    pm = preds_map(f)
     for b in f['blocks']:
         c = strip((b.get('term') or {}).get('cond'))
         if not (isinstance(c, dict) and c.get('k') == 'bin' and c.get('op') in ('==', '!=') and len(b['succ']) == 2):
@@ -889,6 +892,28 @@ def run_filter_field_recorded(run, P, fname='handle_response'):
                     run.violation('R-RESP', fname, ev['loc'], 'filter-records-sibling-field:%s' % fld['f'],
                                   'the duplicate filter compares the message id with ->%s but records the new id into ->%s: ->%s is never updated, so a duplicated message of this kind '
                                   'is delivered again, and the sibling filter is fed an id it should not know' % (fld['f'], g, fld['f']))
+                # (b) the filter is confined to ONE message type: the comparison is dominated by the equal arm of `X->type == K`, and sibling filters have different K
+                ks = set()
+                for d in dom.get(b['id'], ()):
+                    if d == b['id']:
+                        continue
+                    cd = strip((B[d].get('term') or {}).get('cond'))
+                    if not (isinstance(cd, dict) and cd.get('k') == 'bin' and cd.get('op') in ('==', '!=') and len(B[d]['succ']) == 2):
+                        continue
+                    for x, y in ((strip(cd['l']), cd['r']), (strip(cd['r']), cd['l'])):
+                        if isinstance(x, dict) and x.get('k') == 'mem' and x.get('f') == 'type' and const_int(y) is not None:
+                            arm = B[d]['succ'][0] if cd['op'] == '==' else B[d]['succ'][1]
+                            if (arm == b['id'] or arm in dom.get(b['id'], ())) and set(pm.get(arm, ())) == {d}:
+                                ks.add(const_int(y))
+                okt = len(ks) == 1 and not (ks & set(types_seen.values()))
+                run.oblige('R-RESP', okt, '%s:filter-confined-to-one-type' % fname)
+                if not okt:
+                    run.violation('R-RESP', fname, b.get('loc') or ev['loc'], 'filter-not-confined-to-type:%s' % fld['f'],
+                                  'the duplicate filter on ->%s is not confined to one message type (%s): messages of another type - a Non-confirmable response carries a message id '
+                                  'from the peer\'s own sequence - are compared with, and recorded into, a field that remembers ids of a different kind, so a new response is dropped as a '
+                                  'duplicate (or a duplicate is delivered)' % (fld['f'], 'types known at the comparison: %s' % sorted(ks) if ks else 'no `->type == K` arm dominates the comparison'))
+                for k in ks:
+                    types_seen[fld['f']] = k
     run.require_count(n >= (2 if run.cfg == 'base' else 1) or run.fixture_mode, 'R-RESP (filter field): fewer than 2 duplicate filters found in %s()' % fname)
 
 
